@@ -4,11 +4,13 @@
     statement:
     - index/scope.rs: 16 of its 17 fns (find_variable_in_current_scope is rendered but has no counterpart in the model);
     - index/context.rs: 6 of 9 (IndexCtx::new / finish are not rendered, resolve_id_in_current_scope has no counterpart);
-    - index.rs: 35 of 39: utils::identifier, index_name_value, resolve_class_ref_as_class / _multiclass, and the impls for
+    - index.rs: 39 of 40: utils::identifier, index_name_value, resolve_class_ref_as_class / _multiclass,
+      check_template_args (equal to emitting the model's diagnostics list computed in the entry state), and the impls for
       SourceFile, StatementList, Statement, Include, Assert, Class, Def, Defm, Defset, Defvar, Dump, Foreach,
       ForeachIterator, ForeachIteratorInit, If, Let, LetList, LetItem, MultiClass, TemplateArgList, TemplateArgDecl,
-      RecordBody, ParentClassList, ArgValueList, ArgValue, Body, BodyItem, FieldDef, FieldLet, Type, Integer.
-    NOT covered: Value, InnerValue, SimpleValue, check_template_args, the salsa entry point `index`, and all of
+      RecordBody, ParentClassList, ArgValueList, ArgValue, Body, BodyItem, FieldDef, FieldLet, Type, Integer, Value,
+      InnerValue, SimpleValue (for every unflattening of the dag / !cond value lists).
+    NOT covered: the salsa entry point `index`, IndexCtx::new / finish, and all of
     index/bang_operator.rs (see design/notes-translator-indexer.md).
     The index.rs clauses are by open recursion: the indexing of child nodes (and the calls of check_template_args /
     resolve_class_ref_* / index_name_value) are parameters of each rendering, instantiated here with the functions of the
@@ -96,6 +98,8 @@ Theorem Indexer_model_is_source_partial :
                          resolve_class_ref_as_class n (CRef i args r) s) /\
      (forall i args r s, src_resolve_class_ref_as_multiclass (index_args n) (m_check_template_args) i args r s =
                          resolve_class_ref_as_multiclass n (CRef i args r) s) /\
+     (forall targs avs r s, src_check_template_args targs avs r s =
+                            (s2 <- state ;; emit (check_template_args s2 targs avs r)) s) /\
      (forall ps s, snd (src_ix_ParentClassList (resolve_class_ref_as_class n) (resolve_class_ref_as_multiclass n) ps s) =
                    snd (index_parents n ps s)) /\
      (forall v s, src_ix_Value (index_inner n) v s = index_value (S n) v s) /\
